@@ -379,6 +379,33 @@ def judge_addrgroup(case) -> Verdict:
     try:
         grp.platform = case.get("alias") or target
     except ValueError as ex:
+        if inexpressible and case.get("retry"):
+            # the caller removes the members the target cannot express and converts again
+            keep = [i for i, (_, w) in enumerate(members) if R.is_contiguous(w) and w != R.ALL1]
+            if not keep or len(grp.items) != len(members):
+                v.label("refused-inexpressible")
+                return v
+            for i in reversed(range(len(members))):
+                if i not in keep:
+                    grp.items.pop(i)
+            try:
+                grp.platform = case.get("alias") or target
+            except ValueError as ex2:
+                v.fail("addrgroup:second-conversion-refused-after-the-offending-members-were-removed",
+                       dict(detail, error=str(ex2)[:200]))
+                return v
+            after = grp.line
+            detail["after"] = after
+            try:
+                name, got = R.read_addrgroup(after, target, strict=True)
+            except R.RefError as ex3:
+                v.fail("addrgroup:retry:output-not-valid-target-syntax", dict(detail, why=str(ex3)[:200]))
+                return v
+            if name != "GRP-1" or [g[1] for g in got] != [members[i] for i in keep]:
+                v.fail("addrgroup:retry:members-or-name-changed", detail)
+            v.nt(True)
+            v.label("refused-then-repaired-and-converted", "compared")
+            return v
         if inexpressible:
             v.label("refused-inexpressible")
             return v
@@ -424,7 +451,8 @@ def addrgroup_case_st(draw, tier):
     to_ = "nxos" if source == "ios" else "ios"
     return {"from": source, "to": to_, "alias": draw(G.alias_st(to_)), "members": members,
             "seqs": draw(st.lists(st.integers(0, 90), max_size=3)) if source == "nxos" else [],
-            "single": draw(st.integers(0, 3)) == 0, "indent": draw(st.sampled_from([" ", "  ", "   "]))}
+            "single": draw(st.integers(0, 3)) == 0, "indent": draw(st.sampled_from([" ", "  ", "   "])),
+            "retry": draw(st.booleans())}
 
 
 SUBS = [
